@@ -56,12 +56,9 @@ fn fmt_args(out: &mut String, res: &Args) {
 }
 
 fn dispatch(mode: &str, a: &Args) -> Args {
-    match mode {
-        "vi_read" => codec::vi_read(a),
-        "vi_write" => codec::vi_write(a),
-        "vi_try" => codec::vi_try(a),
-        _ => vec![vec![999_997]],
-    }
+    // each module owns its modes: `dispatch(mode, args) -> Option<Args>`
+    None.or_else(|| codec::dispatch(mode, a))
+        .unwrap_or_else(|| vec![vec![999_997]])
 }
 
 fn main() {
